@@ -24,7 +24,7 @@ PROPS = ["P_RosterAuthorised", "P_CarbonAuthorised", "P_OnlyRegistered", "P_Fiel
 DEV = {
     "ForgedRosterApplied": "P_RosterAuthorised", "ServerMayPushRoster": "P_RosterAuthorised", "OwnResourceMayPushRoster": "P_RosterAuthorised",
     "ForgedCarbonDelivered": "P_CarbonAuthorised", "CarbonForPlain": "P_OnlyRegistered",
-    "DropVer": "P_FieldsCarried", "DropGroups": "P_FieldsCarried", "DirectionSwapped": "P_FieldsCarried", "OuterForInner": "P_FieldsCarried",
+    "DropVer": "P_FieldsCarried", "DropGroups": "P_FieldsCarried", "ReportDropped": "P_FieldsCarried", "ErrorThenCarriesOn": "P_AtMostOneReply", "DirectionSwapped": "P_FieldsCarried", "OuterForInner": "P_FieldsCarried",
     "CallbackTwice": "P_ExactlyOnce", "SkipSecondItem": "P_ExactlyOnce", "UnblockAllForItems": "P_ExactlyOnce",
     "ResultOnRefusal": "P_ReplyMeaning", "NoReplyOnApply": "P_ReplyMeaning", "NoDefaultReply": "P_ExactlyOneReply",
     "DoubleReply": "P_AtMostOneReply", "ReplyToMessage": "P_AtMostOneReply", "ReplyToResponse": "P_AtMostOneReply",
@@ -92,7 +92,7 @@ def emit_alphabet(ctx):
 # which stanza kinds a configuration field matters for (quick tier: a changed field is exercised with those only)
 MATTERS = {
     "roster": {"roster"}, "carbons": {"carbon", "plain", "info"}, "block": {"block", "unblock", "blocklist"}, "list": {"blocklist"},
-    "resp": {"ping", "version", "time", "info", "items", "extra", "foreign", "empty"}, "timefn": {"time"}, "extra": {"info", "items", "extra"},
+    "resp": {"ping", "version", "time", "info", "items", "extra", "foreign", "empty", "bob"}, "timefn": {"time"}, "extra": {"info", "items", "extra"},
 }
 
 
@@ -256,7 +256,7 @@ def stanza_desc(s):
         return "helper %s (responder answers %s)" % (s["kind"], s["shape"])
     d = "%s type=%s from=%s %s" % (s["st"], s["typ"], s["from"] or "(none)", s["kind"])
     if s["kind"] in ("roster", "block", "unblock"):
-        d += " items=%s" % [i["jid"] for i in s["items"]]
+        d += " items=%s" % [i["jid"] + (" with report shape " + i["rep"] if i.get("rep") else "") for i in s["items"]]
     if s["shape"] != "ok":
         d += " shape=" + s["shape"]
     if s["kind"] == "carbon":
@@ -331,11 +331,11 @@ def selftest(ctx, paths):
     first = lambda evs, f: next(i for i, e in enumerate(evs) if f(e))
     has = lambda evs, f: any(f(e) for e in evs)
     is_cb = lambda c: (lambda e: e.get("ev") == "cb" and e.get("cb") == c)
-    wf = lambda s: s["shape"] == "ok" and all(i["jid"] not in ("", "a@@b") for i in s["items"])
+    wf = lambda s: s["shape"] == "ok" and all(i["jid"] not in ("", "a@@b") and i.get("rep", "") in ("", "ok") for i in s["items"])
     ros = lambda evs: (has(evs, is_cb("roster")) and evs[0]["script"][0]["kind"] == "roster" and evs[0]["cfg"]["roster"] == "ok"
                        and wf(evs[0]["script"][0]) and len(evs[0]["script"][0]["items"]) == 1 and evs[0]["script"][0]["items"][0]["groups"])
     car = lambda evs: has(evs, is_cb("carbon")) and evs[0]["script"][0]["shape"] == "ok"
-    ver = lambda evs: evs[0]["script"][0]["kind"] == "version" and evs[0]["script"][0]["st"] == "iq" and has(evs, lambda e: e.get("ev") == "reply" and e.get("pl") == "query")
+    ver = lambda evs: evs[0]["script"][0]["kind"] == "version" and evs[0]["script"][0]["st"] == "iq" and evs[0]["script"][0]["shape"] == "ok" and has(evs, lambda e: e.get("ev") == "reply" and e.get("pl") == "query")
     hel = lambda evs: evs[0]["script"][0]["st"] == "call" and evs[0]["script"][0]["kind"] == "version" and evs[0]["script"][0]["shape"] == "result"
     blk = lambda evs: has(evs, is_cb("block")) and evs[0]["script"][0]["kind"] == "block" and wf(evs[0]["script"][0])
     base = [find(ros), find(car), find(ver), find(hel)]
@@ -366,6 +366,9 @@ def selftest(ctx, paths):
     try:
         b = find(blk)
         mut("block callback with another jid", b, lambda m: m[first(m, is_cb("block"))].update(jid="x@example.org"))
+        mut("block callback with another abuse report", b, lambda m: m[first(m, is_cb("block"))].update(rep="urn:xmpp:reporting:spam||"))
+        mut("block command answered twice (error, then result)", b, lambda m: m.insert(
+            first(m, lambda e: e.get("ev") == "reply"), dict(m[first(m, lambda e: e.get("ev") == "reply")], typ="error", cond="bad-request")))
     except verif.Undecided:
         pass
     p = write_traces(ctx, base + [m for _, m in muts], "push-selftest.ndjson")
@@ -415,7 +418,11 @@ def run_part(ctx):
         "samples": summ["samples"][:2],
         "rule": "every stanza of the grammar emitted by TLC (sender class none / own bare / own full / other own resource / server / other user bare+full / other domain; "
                 "roster push, carbon copy, plain message, block / unblock / blocklist, ping / version / time / disco#info / disco#items / application / foreign / empty "
-                "payload as get / set / result / error; well-formed, no item, several items, unparsable JID, unknown child, carbon with delay / body before / after / empty "
-                "wrapper / empty forwarded / two copies; helper calls x responder answers result / empty result / three error conditions) under every handler "
+                "/ bits-of-binary payload as get / set / result / error; well-formed, no item, several items, unparsable JID, unknown child, carbon with delay / body before / after / empty "
+                "wrapper / empty forwarded / two copies; requests to every library handler (roster, blocklist, ping, version, time, disco#info / #items, bits of binary) "
+                "whose payload is well-formed XML the handler cannot or can only partly decode (unexpected children, character data, response-like children with bad "
+                "values, the payload twice, unparsable max-age / base64); block / unblock items with an abuse report of 9 shapes (well-formed, stanza-id with a bad by / "
+                "outside its namespace, duplicated report / text, element inside text, unknown child, no reason) alone and among plain items - each judged by the "
+                "reply rule (at most one reply, exactly one unless Serve ends, id and addressee); helper calls x responder answers result / empty result / three error conditions) under every handler "
                 "configuration that matters for it, each followed by a probe request; pairs over the core alphabet and seeded sequences of 3-4 stanzas",
     }
